@@ -158,10 +158,21 @@ type FreshProcesser interface {
 }
 
 type oneResult struct {
-	Class  string   `json:"class"`
-	Detail string   `json:"detail"`
-	Log    []string `json:"log"`
-	Infra  string   `json:"infra"`
+	Class    string         `json:"class"`
+	Detail   string         `json:"detail"`
+	Log      []string       `json:"log"`
+	Infra    string         `json:"infra"`
+	Counters map[string]int `json:"counters,omitempty"`
+	Distinct []string       `json:"distinct,omitempty"`
+	Evals    int            `json:"evals,omitempty"`
+	Samples  []interface{}  `json:"samples,omitempty"`
+	Hooks    int            `json:"hooks,omitempty"`
+}
+
+// ColdStarter is implemented by engines some of whose scenarios must run in a
+// process in which the library has not been used yet.
+type ColdStarter interface {
+	ColdStart(sc interface{}) bool
 }
 
 // runFresh executes one scenario in a fresh process of this binary.
@@ -176,7 +187,11 @@ func runFresh(e Engine, sc interface{}, ctx *RunCtx) (*Finding, string) {
 	f.Write(mustJSON(sc))
 	f.Close()
 	self, _ := os.Executable()
-	cmd := exec.Command(self, "runone", e.Property(), f.Name())
+	args := []string{"runone", e.Property(), f.Name()}
+	if !ctx.Quiet {
+		args = append(args, "count")
+	}
+	cmd := exec.Command(self, args...)
 	cmd.Stderr = os.Stderr
 	out, err := cmd.Output()
 	var r oneResult
@@ -184,6 +199,21 @@ func runFresh(e Engine, sc interface{}, ctx *RunCtx) (*Finding, string) {
 		return nil, fmt.Sprintf("fresh-process run failed: %v %v: %s", err, jerr, firstLine(string(out)))
 	}
 	ctx.Log = append(ctx.Log[:0], r.Log...)
+	if !ctx.Quiet {
+		for k, v := range r.Counters {
+			ctx.Counters[k] += v
+		}
+		for _, d := range r.Distinct {
+			ctx.Distinct[d] = struct{}{}
+		}
+		ctx.Evals += r.Evals
+		hookCalls += r.Hooks
+		for _, smp := range r.Samples {
+			if len(ctx.Samples) < ctx.MaxSamp {
+				ctx.Samples = append(ctx.Samples, smp)
+			}
+		}
+	}
 	if r.Infra != "" {
 		return nil, r.Infra
 	}
@@ -211,11 +241,18 @@ func runOneMain(args []string) int {
 		return 2
 	}
 	ctx := NewRunCtx()
-	ctx.Quiet = true
+	ctx.Quiet = len(args) < 3 || args[2] != "count"
 	f, im := runGuarded(e, sc, ctx)
 	r := oneResult{Log: ctx.Log, Infra: im}
 	if f != nil {
 		r.Class, r.Detail = f.Class, f.Detail
+	}
+	if !ctx.Quiet {
+		r.Counters, r.Evals, r.Samples, r.Hooks = ctx.Counters, ctx.Evals, ctx.Samples, hookCalls
+		for d := range ctx.Distinct {
+			r.Distinct = append(r.Distinct, d)
+		}
+		sort.Strings(r.Distinct)
 	}
 	os.Stdout.Write(mustJSON(r))
 	removeRaceLog()
@@ -226,6 +263,9 @@ func runOneMain(args []string) int {
 // engine asks for that.
 func evalCandidate(e Engine, sc interface{}, class string, ctx *RunCtx) (*Finding, string) {
 	if fp, ok := e.(FreshProcesser); ok && fp.FreshProcess(class) {
+		return runFresh(e, sc, ctx)
+	}
+	if cs, ok := e.(ColdStarter); ok && cs.ColdStart(sc) {
 		return runFresh(e, sc, ctx)
 	}
 	return runGuarded(e, sc, ctx)
